@@ -1109,13 +1109,13 @@ func c16Relation(f c16Store, l c16Leader) string {
 		return "ahead"
 	case fd.right() == l.D.right():
 		return "equal"
+	case l.D.right()-fd.right() > 10*1024*1024:
+		return "far-behind"
 	case fd.right() < l.D.Base:
 		if l.D.HasSnap {
 			return "collected-snap"
 		}
 		return "collected"
-	case l.D.right()-fd.right() > 10*1024*1024:
-		return "far-behind"
 	default:
 		return "prefix"
 	}
@@ -1207,10 +1207,6 @@ func c16GenCase(r *vfutil.Rand) c16Case {
 	c.LogSize = int64(vfutil.Pick(r, []int{40, 64, 200, 1 << 20}))
 	lid := "idA"
 	l := c16GenLeader(r, lid)
-	if r.Chance(1, 12) && l.D != nil { // more than 10 MiB ahead of anything the follower holds
-		sh := int64(11 * 1024 * 1024)
-		l.D = c16MkData(lid, l.D.Base+sh, l.D.right()+sh, l.D.HasSnap)
-	}
 	// follower
 	var f c16Store
 	k := r.Intn(12)
@@ -1266,6 +1262,10 @@ func c16GenCase(r *vfutil.Rand) c16Case {
 	}
 	sort.Slice(f.Dirs, func(i, j int) bool { return f.Dirs[i].Id < f.Dirs[j].Id })
 	c.F = f
+	if r.Chance(1, 10) && l.D != nil { // the leader is more than 10 MiB ahead of anything the follower holds
+		sh := int64(11 * 1024 * 1024)
+		l.D = c16MkData(lid, l.D.Base+sh, l.D.right()+sh, l.D.HasSnap)
+	}
 	rd := c16Round{L: l, Cut: -1, Quiet: true}
 	if r.Chance(1, 3) {
 		rd.Split = vfutil.Pick(r, []int{1, 3, 17, 100})
@@ -1349,7 +1349,7 @@ func TestVerifC16(t *testing.T) {
 		x.runCase(t, c, "corpus")
 	}
 
-	pairs := vfutil.Scale(70, 700)
+	pairs := vfutil.Scale(70, 2500)
 	maxCuts := vfutil.Scale(6, 40)
 	// every family (one generated pair + its cuts + later leader states) draws from its
 	// own fork of the seed; families run concurrently (a CLEAR answer makes the real
